@@ -88,15 +88,15 @@ mutual
 end
 
 def decFixes : Sx → Option Fixes
-  | .list [a, b, c, d, e, f, g, h] => do
-    pure ⟨← asBool a, ← asBool b, ← asBool c, ← asBool d, ← asBool e, ← asBool f, ← asBool g, ← asBool h⟩
+  | .list [a, b, c, d, e, f, g, h, i] => do
+    pure ⟨← asBool a, ← asBool b, ← asBool c, ← asBool d, ← asBool e, ← asBool f, ← asBool g, ← asBool h, ← asBool i⟩
   | _ => none
 
 def encVerdict : Verdict → Sx
   | .keep => .sym "keep" | .offer => .sym "offer" | .builtin => .sym "builtin"
 
 def encRec (r : Rec) : Sx :=
-  .list [ofNat r.sid, ofBool r.ok, ofBool r.delRead, ofBool r.tame, ofBool r.shadow, ofBool r.g,
+  .list [ofNat r.sid, ofBool r.ok, ofListWith ofNat r.delRead, ofBool r.tame, ofBool r.shadow, ofBool r.g,
          .list (r.decs.map fun d => .list [ofNat d.kind, encVerdict d.v])]
 
 def handle (op : String) (args : List Sx) : Option Sx :=
